@@ -317,6 +317,11 @@ func RangeOf(t types.Type, x string) string {
 	return And(App("<=", "0", x), App("<", x, BigLit(Pow2(bits))))
 }
 
+// WrapInt64 selects exact two's-complement wrap-around for int / int64
+// arithmetic (contract flag "int64=wrap"); otherwise signed 64-bit arithmetic is
+// mathematical. Set by Engine.Verify for the function being generated.
+var WrapInt64 bool
+
 // Wrap reduces an Int term into the range of t. Signed 64-bit is left
 // mathematical (assumption: no signed 64-bit overflow).
 func Wrap(t types.Type, x string) string {
@@ -325,12 +330,12 @@ func Wrap(t types.Type, x string) string {
 		return x
 	}
 	if signed {
-		if bits == 64 {
+		if bits == 64 && !WrapInt64 {
 			return x
 		}
 		m := BigLit(Pow2(bits))
 		h := BigLit(Pow2(bits - 1))
-		return fmt.Sprintf("(- (mod (+ %s %s) %s) %s)", x, h, m, h)
+		return fmt.Sprintf("(ite (and (<= (- %s) %s) (< %s %s)) %s (- (mod (+ %s %s) %s) %s))", h, x, x, h, x, x, h, m, h)
 	}
 	m := BigLit(Pow2(bits))
 	return fmt.Sprintf("(ite (and (<= 0 %s) (< %s %s)) %s (mod %s %s))", x, x, m, x, x, m)
